@@ -10,6 +10,7 @@ import (
 	"sort"
 	"strings"
 	"sync"
+	"sync/atomic"
 	"time"
 
 	logger "github.com/ElrondNetwork/elrond-go-logger"
@@ -320,6 +321,29 @@ func sequentialCase(r *vk.Run, c *vk.Case, nOps int) {
 	}
 }
 
+type op struct {
+	kind int // 0 add 1 remove 2 select 3 notify 4 read
+	spec txkit.TxSpec
+	a, b int
+}
+
+func runScript(cache *txcache.TxCache, script []op) {
+	for _, o := range script {
+		switch o.kind {
+		case 0:
+			cache.AddTx(o.spec.Wrap())
+		case 1:
+			cache.RemoveTxByHash([]byte(o.spec.Hash()))
+		case 2:
+			cache.SelectTransactions(o.a, o.b)
+		case 3:
+			cache.NotifyAccountNonce(txkit.SenderAddr(o.a), uint64(o.b))
+		case 4:
+			cache.GetByTxHash([]byte(o.spec.Hash()))
+		}
+	}
+}
+
 // concurrentRound runs one shared cache under several clients and checks the invariants after they stopped.
 // partitioned: every sender is owned by one client, no capacity eviction, no nonce notifications (hence no sweeps):
 // all invariants must hold. contended: everything is shared, eviction and sweeps run: the code documents "slight
@@ -336,11 +360,6 @@ func concurrentRound(r *vk.Run, c *vk.Case, partitioned bool, opsPerClient int) 
 	uniform := int64(0)
 	sendersPerClient := rng.Range(1, 2)
 	nSenders := clients * sendersPerClient
-	type op struct {
-		kind int // 0 add 1 remove 2 select 3 notify 4 read
-		spec txkit.TxSpec
-		a, b int
-	}
 	scripts := make([][]op, clients)
 	var shared []txkit.TxSpec
 	for i := 0; i < 24; i++ {
@@ -387,29 +406,23 @@ func concurrentRound(r *vk.Run, c *vk.Case, partitioned bool, opsPerClient int) 
 	}
 	start := make(chan struct{})
 	var wg sync.WaitGroup
+	var panicked atomic.Bool
 	for ci := 0; ci < clients; ci++ {
 		wg.Add(1)
 		go func(id int) {
 			defer wg.Done()
 			<-start
-			for _, o := range scripts[id] {
-				switch o.kind {
-				case 0:
-					cache.AddTx(o.spec.Wrap())
-				case 1:
-					cache.RemoveTxByHash([]byte(o.spec.Hash()))
-				case 2:
-					cache.SelectTransactions(o.a, o.b)
-				case 3:
-					cache.NotifyAccountNonce(txkit.SenderAddr(o.a), uint64(o.b))
-				case 4:
-					cache.GetByTxHash([]byte(o.spec.Hash()))
-				}
+			if p, v, st := vk.Guard(func() { runScript(cache, scripts[id]) }); p {
+				panicked.Store(true)
+				r.Violation(c.Idx, "panic:"+vk.TopFrame(st), fmt.Sprintf("a client of a concurrent round panicked: %v", v), map[string]interface{}{"panic": fmt.Sprint(v), "stack": st})
 			}
 		}(ci)
 	}
 	close(start)
 	wg.Wait()
+	if panicked.Load() {
+		return
+	}
 	total := 0
 	for _, s := range scripts {
 		total += len(s)
